@@ -179,6 +179,10 @@ pub fn check(c: &Case) -> Verdict {
     let tip = built.tip();
     let n = built.blocks.len();
     let Prepared { mut plan, candidates, mut pattern, interesting } = prepare(c, &built);
+    // half of the indexes went through a node's write history (records first stored header-only / with older positions,
+    // deleted records): only the final content counts
+    plan.ldb_history = c.extras.first().map(|e| e.at & 1 == 1).unwrap_or(false);
+    plan.ldb_small_buffer = c.extras.first().map(|e| e.at & 2 == 2).unwrap_or(false);
     let w = infra!(World::create("c04", &mut plan));
     let mut o = RunOpts::new(built.coin, c.cb);
     // defect prediction (D7): greatest key among the data-bearing records of a height wins
